@@ -1,4 +1,5 @@
 ---- MODULE LifecycleMC ----
 EXTENDS Lifecycle, Json
 Emit == (Len(log) = MaxOps) => PrintT(ToJson([log |-> log, quiescent |-> Quiescent, open |-> Cardinality(handles)]))
+\* generation: only complete histories that end in a terminal or non-terminal use (a history of derivations alone observes nothing)
 ====
